@@ -38,8 +38,21 @@ package definition
 // own connectionSecretKeys.
 
 //@ func (*definition.Reconciler).CompositeReconcilerOptions
-//@ props C09
+//@ props C09 C04
 //@ site composite.NewAPIFilteredSecretPublisher(_, $filter)
 //@   assert [C09:api-publisher-filters-by-xrd-keys] $filter == d.Spec.ConnectionSecretKeys
 //@ site composite.NewSecretStoreConnectionPublisher(_, $filter)
 //@   assert [C09:store-publisher-filters-by-xrd-keys] $filter == d.Spec.ConnectionSecretKeys
+// C03 / C04 / C10 (which composer runs): a Pipeline-mode revision is composed by the function
+// composer, everything else by the patch-and-transform composer; the function composer runs its
+// steps through the requirement-fetching runner wrapped around the configured function runner.
+//@ let $fetching = result composite.NewFetchingFunctionRunner
+//@ site composite.NewFetchingFunctionRunner($wrapped, $fetcher)
+//@   assert [C04:steps-run-through-the-configured-function-runner] $wrapped == r.options.FunctionRunner
+//@ site composite.NewFunctionComposer($cached, $uncached, $runner, $fo...)
+//@   assert [C04:function-composer-runs-steps-through-the-requirement-fetching-runner] $runner == $fetching
+
+//@ func (*definition.Reconciler).CompositeReconcilerOptions$1
+//@ props C03 C04 C10
+//@ ensures [C03,C04,C10:pipeline-mode-is-composed-by-the-function-composer] (cm != nil && *cm == v1.CompositionModePipeline) ==> result == fc
+//@ ensures [C03,C10:every-other-mode-is-composed-by-the-patch-and-transform-composer] !(cm != nil && *cm == v1.CompositionModePipeline) ==> result == ptc
